@@ -39,7 +39,7 @@ THEOREMS = [
 ]
 LEVEL = "proof"
 
-POSITIONS = [[], ["a"], ["a", "b"], ["a", "b", "c"], ["a", "d"], ["e"], ["a", "b", "a"]]
+POSITIONS = [[], ["a"], ["a", "b"], ["a", "b", "c"], ["a", "d"], ["e"], ["a", "b", "a"], ["ab"]]   # "a" is a proper prefix of "ab" as a string only
 KINDS = ["enum", "record", "interface"]
 
 
@@ -136,6 +136,12 @@ def run(ctx):
                 "list = enum { a; }", "namespace a { i32 = record { } }\nr = record { f: a.i32; g: i32; }", "a.b = enum { k; }"]:
         todo.append({"files": {"/w/m.djinni": dup}, "root": "/w/m.djinni", "meta": ("dup", dup)})
     todo.append({"files": {"/w/m.djinni": '@import "lib.djinni"\nx = enum { a; }', "/w/lib.djinni": "x = record { }"}, "root": "/w/m.djinni", "meta": ("dup", "import")})
+    # files whose names differ only in letter case are different files: both are loaded, each declaration binds
+    for j, (first, second) in enumerate([("Shapes", "shapes"), ("shapes", "Shapes"), ("lib/Geo", "lib/geo")]):
+        todo.append({"files": {"/w/m.djinni": f'@import "{first}.djinni"\n@import "{second}.djinni"\nnamespace app {{ h = record {{ f: x; g: .x; k: y; }} }}',
+                               f"/w/{first}.djinni": "x = enum { k; }\nnamespace app { y = record { } }",
+                               f"/w/{second}.djinni": "namespace app { x = record { } h2 = record { f: x; g: y; } }"},
+                     "root": "/w/m.djinni", "meta": ("letter-case", j)})
     # external types (@extern): they bind like declarations, and a name that is already taken is a duplicate
     ext = lambda name, ns=(), prim="record": {"ext": [{"name": name, "ns": list(ns), "prim": prim}]}
     for name, files in {
